@@ -305,6 +305,13 @@ Section Parser.
         end
     end.
 
+  (* parenthesized arguments are admitted for LogicalType parameters only *)
+  Fixpoint grouped_ok (tys : list ty3) (gs : list bool) : bool :=
+    match tys, gs with
+    | t :: tys', g :: gs' => (negb g || ty3_eqb t TLogical) && grouped_ok tys' gs'
+    | _, _ => true
+    end.
+
   Fixpoint p_query (fuel : nat) (in_filter : bool) (s : stream) {struct fuel} : pres (list seg) :=
     match fuel with O => PFuel | S f =>
       if is_ty T_DOUBLE_DOT s then
@@ -446,6 +453,8 @@ Section Parser.
       dop e, s <- p_fexpr f PRECEDENCE_LOWEST (adv s);
       dop e, s <- p_grouped_loop f e (adv s);
       if negb (is_ty T_RPAREN s) then err_cur ESyntax s
+      else if is_literal (fst e) then PErr ESyntax (snd e)          (* a grouped bare literal is not a logical expression *)
+      else if value_function (fst e) then PErr EType (snd e)      (* nor is the result of a value function *)
       else if is_comparison_tok (peek_ty s) then err_peek ESyntax s
       else POk e (after_peek s)
     end
@@ -472,21 +481,28 @@ Section Parser.
   with p_function (fuel : nat) (s : stream) {struct fuel} : pres (expr * Z) :=
     match fuel with O => PFuel | S f =>
       let tok := cur s in
-      dop args, s <- p_args_loop f (adv s);
+      dop argsg, s <- p_args_loop f (adv s);
+      let args := map fst argsg in
       (* env.validate_function_extension_signature(tok, args) *)
       match find_assoc (tval tok) rg with
       | None => PErr EName (tidx tok)
       | Some d =>
           if negb (length args =? length (f_args d))%nat then PErr EType (tidx tok)
-          else if check_args (f_args d) args then POk (ECall (tval tok) args, tidx tok) s
+          else if check_args (f_args d) args then
+            (* an argument written in parentheses is a logical expression *)
+            if grouped_ok (f_args d) (map snd argsg) then POk (ECall (tval tok) args, tidx tok) s
+            else PErr EType (tidx tok)
           else PErr EType (tidx tok)
       end
     end
-  with p_args_loop (fuel : nat) (s : stream) {struct fuel} : pres (list expr) :=
+  with p_args_loop (fuel : nat) (s : stream) {struct fuel} : pres (list (expr * bool)) :=
     match fuel with O => PFuel | S f =>
       if is_ty T_RPAREN s then POk [] s else
       if negb (in_function_argument_map (cty s)) then err_cur ESyntax s else
+      let grouped := is_ty T_LPAREN s in
       dop e, s <- p_primary f s;
+      (* grouped stays true only if no binary operator follows the parenthesized expression *)
+      let g := grouped && match binary_operator (peek_ty s) with None => true | Some _ => false end in
       dop e, s <- p_arg_infix_loop f e s;
       dop _, s <-
         (if negb (ttype_eqb (peek_ty s) T_RPAREN) then
@@ -495,7 +511,7 @@ Section Parser.
            if ttype_eqb (peek_ty s) T_RPAREN then err_peek ESyntax s else POk tt (after_peek s)
          else POk tt (after_peek s));
       dop es, s <- p_args_loop f (adv s);
-      POk (fst e :: es) s
+      POk ((fst e, g) :: es) s
     end
   (* while peek_kind in self.BINARY_OPERATORS: ... *)
   with p_arg_infix_loop (fuel : nat) (e : expr * Z) (s : stream) {struct fuel} : pres (expr * Z) :=
